@@ -81,18 +81,20 @@ def check(run):
         n = core.write_cases(core.dedupe_histories(core.parse_cases(r["out"], tag="HIST")), cases)
         if n == 0:
             raise core.Inconclusive("no histories generated")
-        outp = os.path.join(run.work, "c14_histout_%d.txt" % mb)
-        run.drive(binary, "TestC14Hist", env={"VERIF_CASES": cases, "VERIF_OUT": outp, "VERIF_CONF": json.dumps({"maxBytes": mb, "exp": 3})}, timeout=1800)
-        viol, samples, summary = summary_of(outp)
-        if summary is None or summary["histories"] != n:
-            raise core.Inconclusive("history driver did not finish")
-        for v in viol:
-            run.violation(v)
-        for s in samples[:1]:
-            run.sample(s)
-        tot["histories"] += n
-        tot["history_requests"] += summary["requests"]
-        tot["history_hits"] += summary["hits"]
+        for sh in (False, True):
+            outp = os.path.join(run.work, "c14_histout_%d_%d.txt" % (mb, sh))
+            run.drive(binary, "TestC14Hist", env={"VERIF_CASES": cases, "VERIF_OUT": outp,
+                                                  "VERIF_CONF": json.dumps({"maxBytes": mb, "exp": 3, "storeHeaders": sh})}, timeout=1800)
+            viol, samples, summary = summary_of(outp)
+            if summary is None or summary["histories"] != n:
+                raise core.Inconclusive("history driver did not finish")
+            for v in viol:
+                run.violation(v)
+            for s in samples[:1]:
+                run.sample(s)
+            tot["histories"] += n
+            tot["history_requests"] += summary["requests"]
+            tot["history_hits"] += summary["hits"]
     run.evaluations = tot["traces"] + tot["histories"]
     run.traces = tot["accepted"] + tot["histories"]
     run.nontrivial = tot["traces"] + tot["history_hits"]
@@ -101,10 +103,11 @@ def check(run):
                 "requests on the real middleware over a gated external storage (quick: first 500 schedules per scenario), each execution validated by TLC "
                 "against Cache.tla with NoCorruption/Accounting/Bounded/HeldBounded/Tracked/HitCorrect at every step; deadlocks and panics are reported by the "
                 "scheduler; (c) TLC-simulated timed histories (no-cache, no-store, invalidation, uncacheable statuses, eviction, expiry) replayed on memory and "
-                "external storage (status, body, content type, X-Cache). Non-trivial = schedules + history hits.")
+                "external storage, with and without StoreResponseHeaders (status, body, content type, content encoding, X-Cache; with the option also a custom and a "
+                "multi-valued origin header on hits). Non-trivial = schedules + history hits.")
     run.extra.update(dict(tot))
     run.extra["violations_by_check"] = dict(collections.Counter(v["check"] for v in run.violations))
     run.samples.append({"schedule_conf": cf, "jobs": jobs})
     run.assumptions = ["time does not pass inside a critical section (ticks only between requests in histories; none during schedule exploration)",
-                       "Age / Cache-Control: max-age values and StoreResponseHeaders are not compared",
+                       "Age / Cache-Control: max-age values are not compared; without StoreResponseHeaders a hit is not required to carry the origin's custom headers",
                        "goroutine wait reasons from runtime.Stack identify mutex-blocked requests (coverage only)"]
